@@ -680,7 +680,7 @@ func genCase(t *rapid.T) Case {
 
 var parts = []engine.AnyPart{
 	engine.Part[Case]{Name: "triples", Run: run, Gen: genCase,
-		Rule: "(function type, options, params) triples: function types from a grammar (no parameter / *jrpc2.Request / scalars, slices, fixed arrays, map[string]T, json.RawMessage, any, pointers, structs made with reflect.StructOf with tagged / untagged / json:\"-\" / omitempty / unexported fields, and 8 hand-declared types with embedded fields, custom UnmarshalJSON / UnmarshalText, value- and pointer-receiver DisallowUnknownFields; results error / Y / (Y, error); 12 invalid shapes), function values made with reflect.MakeFunc that record their calls, SetStrict x AllowArray in {unset,true,false}, params derived from the type (matching object, matching array, arrays one short / one long / with a wrong element, unknown keys, null, absent, unrelated JSON); oracle = the documented signature schemes for Check and encoding/json applied directly to the declared type after an independently computed array-to-field mapping; non-trivial = struct / pointer / named parameter, or array-form params, or SetStrict(true); distinct = the case"},
+		Rule: "(function type, options, params) triples: function types from a grammar (no parameter / *jrpc2.Request / scalars, slices, fixed arrays, map[string]T, json.RawMessage, any, pointers, structs made with reflect.StructOf with tagged / untagged / json:\"-\" / omitempty / unexported fields, and 12 hand-declared types (two of them distinct local types of one name) with embedded fields, custom UnmarshalJSON / UnmarshalText, value- and pointer-receiver DisallowUnknownFields; results error / Y / (Y, error); 12 invalid shapes), function values made with reflect.MakeFunc that record their calls, SetStrict x AllowArray in {unset,true,false}, params derived from the type (matching object, matching array, arrays one short / one long / with a wrong element, unknown keys, null, absent, unrelated JSON); oracle = the documented signature schemes for Check and encoding/json applied directly to the declared type after an independently computed array-to-field mapping; non-trivial = struct / pointer / named parameter, or array-form params, or SetStrict(true); distinct = the case"},
 }
 
 func TestProp(t *testing.T)   { engine.RunParts(t, "C15", parts) }
